@@ -139,6 +139,17 @@ def gen_program(r, ident, now):
         base = r.pick(['out', 'result', 'data', 'report-1', 'a b']) + \
             ('%d' % j if j else '')
         name = base + ext
+        if j == 1 and layout != 'twodirs' and r.chance(0.3):
+            # a sibling of the first file whose name differs from it only
+            # in punctuation (report-1.txt / report_1.txt): the same
+            # identifier once non-alphanumerics are replaced
+            first = names[0].split('/')[-1]
+            pos = [k for k, ch in enumerate(first) if not ch.isalnum()]
+            if pos:
+                k = r.pick(pos)
+                alt = r.pick([c for c in '-_. ' if c != first[k]])
+                name = first[:k] + alt + first[k + 1:]
+                binary = False
         if layout == 'twodirs':
             # same basename in different directories (the reference
             # directory is flat, so the names collide there)
